@@ -6,7 +6,7 @@ from .. import common as K
 FORMATS = ["classic", "bytes", "extended", "extended-bytes", "xasm", "header"]
 VERS = [(1, 5), (2, 2), (2, 5), (2, 7), (3, 0), (3, 3), (3, 5), (3, 6), (3, 7), (3, 8), (3, 9), (3, 10), (3, 11), (3, 12), (3, 13)]
 RULE = ("seeded histories (length 0..12) over the public operations load_module, disassemble_file in six formats, get_opcode, "
-        "get_opcode_module, make_std_api (+ get_instructions) incl. the 'pypy' variant, Bytecode iteration, marsh dumps/loads (host and other target versions), on corpus files of all versions incl. the dropbox-encrypted ones; "
+        "get_opcode_module, make_std_api (+ get_instructions) incl. the 'pypy' variant, Bytecode iteration, marsh dumps/loads (host and other target versions), xdis.marsh.loads on the payloads of real Python 2.4-2.7 files (pairs of different files one after the other whatever the seed), on corpus files of all versions incl. the dropbox-encrypted ones; "
         "each history then a probe runs in its own forked process; monitor 1: digest of the probe's result and of its captured output "
         "equals the digest of the same probe run first in a fresh process, and the probe repeated equals itself; monitor 2: SHA-1 digests "
         "of every module-level table a later call reads (all opcode modules, magics tables, op_imports, std default API, fields2copy) "
@@ -14,9 +14,14 @@ RULE = ("seeded histories (length 0..12) over the public operations load_module,
         "(history, probe); distinct = history of length >= 2")
 
 
+PY2_FILES = []
+
+
 def gen_op(rng, files):
     k = rng.random()
     f = rng.choice(files)
+    if k < 0.05 and PY2_FILES:
+        return {"op": "marsh_loads_py2", "file": rng.choice(PY2_FILES)}
     if k < 0.22:
         return {"op": "load_module", "file": f}
     if k < 0.52:
@@ -71,8 +76,35 @@ def run(tier, scratch, t0, replay=None):
             with open(q, "wb") as f:
                 f.write(mut)
             files.append(q)
+    # real Python 2.4-2.7 payloads for xdis.marsh.loads (string interning state lives in the reader)
+    del PY2_FILES[:]
+    for p in K.corpus_files():
+        d = os.path.basename(os.path.dirname(p))
+        if d in ("bytecode_2.4", "bytecode_2.5", "bytecode_2.6", "bytecode_2.7") and os.path.getsize(p) < 4000:
+            PY2_FILES.append(p)
+    PY2_FILES.sort()
+    # ... and fresh ones: generated 2.7 programs written by 2.7 itself in marshal format 1 (text floats, 't' / 'R' strings),
+    # the format xdis.marsh.loads reads
+    if (2, 7) in K.available_interps():
+        b1 = D.build_batches(scratch, [(2, 7)], tier, "C18-py2v1", n_stdlib=0, n_gen=6 if quick else 40, batch=60, with_corpus=False,
+                             gen_snippets=2, must_templates=["t_strings", "t_closure", "t_class2", "t_control"])
+        for b in b1:
+            for it in b["items"]:
+                it["marshal_version"] = 1
+                it["pyc"] = it["pyc"][:-4] + ".v1.pyc"
+            tf, err = K.run_truth((2, 7), "compile", {"items": b["items"], "sections": [], "mode": "compile"}, b["workdir"], b["tag"] + "v1")
+            if tf is None:
+                res.inconclusive.append("compile 2.7 (marshal 1): %s" % err)
+                continue
+            PY2_FILES.extend(it["pyc"] for it in b["items"] if os.path.exists(it["pyc"]) and os.path.getsize(it["pyc"]) < 12000)
     n = 480 if quick else 20000
     hists = []
+    # whatever the seed: pairs of *different* Python 2 payloads one after the other, and a failed load before a good one
+    for i in range(0, min(len(PY2_FILES) - 1, 24 if quick else 200), 2):
+        a, b2 = PY2_FILES[i], PY2_FILES[-1 - i]
+        hists.append({"ops": [{"op": "marsh_loads_py2", "file": a}], "probe": {"op": "marsh_loads_py2", "file": b2}})
+        hists.append({"ops": [{"op": "load_module", "file": a}, {"op": "marsh_loads_py2", "file": b2}],
+                      "probe": {"op": "disassemble_file", "file": a, "fmt": "classic"}})
     for i in range(n):
         k = rng.choice([0, 1, 2, 2, 3, 4, 6, 8, 12])
         hists.append({"ops": [gen_op(rng, files) for _ in range(k)], "probe": gen_op(rng, files)})
